@@ -230,11 +230,13 @@ type bprover struct {
 	rngBusy  map[atom]bool
 	canon    map[*ssa.UnOp]ssa.Value // memory loads -> representative value
 	canonLen map[*ssa.Call]ssa.Value // len(map) calls -> representative value
+	memAt    memQuery
 	gcache   map[*ssa.BasicBlock][]bfact
 	mem      *memInfo
 	depth    int
 	fmSteps  int
 	iv         map[ssa.Value]irange // interval pre-pass
+	minLen     map[ssa.Value]int64
 	trace      bool
 	br         *boundsRun
 	lkMemo     map[*ssa.Lookup]ssa.Value
@@ -248,7 +250,7 @@ func newProver(w *World, fn *ssa.Function, mem *memInfo) *bprover {
 		linMemo: map[ssa.Value]blin{}, lenMemo: map[ssa.Value]blin{},
 		rngMemo: map[atom]irange{}, rngBusy: map[atom]bool{},
 		gcache: map[*ssa.BasicBlock][]bfact{}, afMemo: map[atom][]bfact{}, afBusy: map[atom]bool{}}
-	p.canon, p.canonLen = canonLoads(fn, mem)
+	p.canon, p.canonLen, p.memAt = canonLoads(fn, mem)
 	p.iv = intervalPass(fn)
 	return p
 }
@@ -378,6 +380,11 @@ func (p *bprover) linOf1(v ssa.Value) blin {
 	self := blatom(atom{aVal, v})
 	if !isIntType(v.Type()) {
 		return self
+	}
+	if src, ok := phiSource(v); ok {
+		if srcDominates(src, v) {
+			return p.linOf(src)
+		}
 	}
 	switch x := v.(type) {
 	case *memVal:
@@ -704,8 +711,14 @@ func arrayLen(t types.Type) (int64, bool) {
 
 func (p *bprover) lenOf1(v ssa.Value) blin {
 	self := blatom(atom{aLen, v})
+	p.noteFieldLen(v)
 	if n, ok := arrayLen(v.Type()); ok {
 		return blconst(n)
+	}
+	if src, ok := phiSource(v); ok {
+		if srcDominates(src, v) {
+			return p.lenOf(src)
+		}
 	}
 	switch x := v.(type) {
 	case *memVal:
@@ -772,6 +785,9 @@ func (p *bprover) lenOf1(v ssa.Value) blin {
 			if r, ok := p.lenOf(x.Call.Args[0]).add(p.lenOf(x.Call.Args[1])); ok {
 				return r
 			}
+		}
+		if c := x.Call.StaticCallee(); c != nil && isSlicesGrow(c) && len(x.Call.Args) == 2 {
+			return p.lenOf(x.Call.Args[0])
 		}
 		if c := x.Call.StaticCallee(); c != nil && p.br != nil && c.Signature.Results().Len() == 1 {
 			if lc, ok := p.br.lenContract(c); ok && lc.param < len(x.Call.Args) {
@@ -876,6 +892,11 @@ func (p *bprover) atomRange(a atom) irange {
 	}
 	if a.k != aVal {
 		r := irange{0, 0, true, false}
+		if a.k == aLen {
+			if n, ok := p.minLen[a.v]; ok {
+				r.lo = n
+			}
+		}
 		p.rngMemo[a] = r
 		return r
 	}
@@ -1190,6 +1211,36 @@ func (p *bprover) atomFacts1(a atom) []bfact {
 		add(e, ok, "cap>=len")
 		return res
 	}
+	if mv, ok := a.v.(*memVal); ok && a.k == aVal && strings.HasPrefix(mv.key, "ML@") && len(mv.siteIns) >= 1 && len(mv.sites) == len(mv.siteIns) {
+		// the length of a coverage table right after  cov.Prune(n)  is at most n
+		// (Prune must be the latest of the possible writes that define this value)
+		for _, si := range mv.siteIns {
+			call, ok := si.(*ssa.Call)
+			if !ok {
+				continue
+			}
+			cal := call.Call.StaticCallee()
+			if cal == nil || fnName(cal) != "(opentype/coverage.Table).Prune" || len(call.Call.Args) != 2 {
+				continue
+			}
+			if !strings.HasPrefix(mv.key, "ML@"+fmtPtr(p.canonVal(call.Call.Args[0]))+"#") {
+				continue
+			}
+			latest := true
+			for _, other := range mv.siteIns {
+				if other == si {
+					continue
+				}
+				if !instrBefore(other, si) {
+					latest = false
+				}
+			}
+			if latest {
+				e, ok := p.linOf(call.Call.Args[1]).sub(me)
+				add(e, ok, "(coverage.Table).Prune contract")
+			}
+		}
+	}
 	if ph, ok := a.v.(*ssa.Phi); ok && isLoopPhi(ph) {
 		for _, f := range p.partnerFacts(a, ph) {
 			res = append(res, f)
@@ -1240,6 +1291,19 @@ func (p *bprover) atomFacts1(a atom) []bfact {
 			if down {
 				e, ok := init.sub(me)
 				add(e, ok, "induction")
+			}
+		} else if leaf, up2, down2, ok := p.monotoneLeaf(x); ok {
+			// a counter advanced on several back edges of nested loops, all in one direction
+			l := p.linOf(leaf)
+			if !p.mentions(l, x) {
+				if up2 {
+					e, ok := me.sub(l)
+					add(e, ok, "induction (nested)")
+				}
+				if down2 {
+					e, ok := l.sub(me)
+					add(e, ok, "induction (nested)")
+				}
 			}
 		}
 	case *ssa.Call:
@@ -1354,6 +1418,12 @@ func fieldKey(fa *ssa.FieldAddr) string {
 	return typeKey(pt) + "." + st.Field(fa.Field).Name()
 }
 
+// fieldMinLen: invariants "len(field) >= n" of decoded structures, verified
+// at every store in scope (rule fieldinv) and assumed at loads.
+var fieldMinLen = map[string]int64{
+	"seehuhn.de/go/sfnt/opentype/gtab.SeqContext3.Input": 1, // readSeqContext3 rejects glyphCount < 1
+}
+
 // containerElemMinLen: invariants of container types, verified at every
 // store into a container of that type in library code (rule continv) and
 // assumed where an element is taken out under an ok/iteration guard.
@@ -1387,6 +1457,13 @@ func (p *bprover) condFacts(cond ssa.Value, pol bool, out *[]bfact) {
 			mt, elemIdx = rg.X.Type(), 2
 		default:
 			return
+		}
+		if lk, isLk := c.Tuple.(*ssa.Lookup); isLk {
+			for _, ref := range *c.Tuple.Referrers() {
+				if ex, ok := ref.(*ssa.Extract); ok && ex.Index == 0 {
+					p.covPairFacts(lk, ex, out)
+				}
+			}
 		}
 		min, ok := containerElemMinLen[typeKey(mt)]
 		if !ok {
@@ -2138,22 +2215,36 @@ func (p *bprover) partnerFacts(a atom, ph *ssa.Phi) []bfact {
 		if !ok || len(qi) != 1 || len(qs) != len(steps) {
 			continue
 		}
-		same, nonzero := true, false
+		same, opposite, nonzero := true, true, false
 		for i, c := range steps {
-			if qc, has := qs[i]; !has || qc != c {
-				same = false
+			qc, has := qs[i]
+			if !has {
+				same, opposite = false, false
 				break
+			}
+			if qc != c {
+				same = false
+			}
+			if qc != -c {
+				opposite = false
 			}
 			if c != 0 {
 				nonzero = true
 			}
 		}
-		if !same || !nonzero {
+		if !nonzero || (!same && !opposite) {
 			continue
 		}
-		// me - q == init_me - init_q
-		d, ok1 := blatom(a).sub(blatom(qa))
-		di, ok2 := inits[0].sub(qi[0])
+		// same steps: me - q is invariant; opposite steps: me + q is invariant
+		var d, di blin
+		var ok1, ok2 bool
+		if same {
+			d, ok1 = blatom(a).sub(blatom(qa))
+			di, ok2 = inits[0].sub(qi[0])
+		} else {
+			d, ok1 = blatom(a).add(blatom(qa))
+			di, ok2 = inits[0].add(qi[0])
+		}
 		if !ok1 || !ok2 {
 			continue
 		}
@@ -2486,4 +2577,216 @@ func (p *bprover) unrelatedContradiction(facts []bfact, used []bool) bool {
 		}
 	}
 	return false
+}
+
+
+// monotoneLeaf: every value flowing into the phi (through other phis and
+// additions of constants of one sign) comes from a single non-phi value
+// leaf, so the phi stays on one side of it.  64-bit integers only (A1).
+func (p *bprover) monotoneLeaf(x *ssa.Phi) (leaf ssa.Value, up, down, ok bool) {
+	if !is64(x.Type()) || !isIntType(x.Type()) {
+		return nil, false, false, false
+	}
+	up, down = true, true
+	seen := map[ssa.Value]bool{}
+	var leaves []ssa.Value
+	var walk func(v ssa.Value, depth int) bool
+	walk = func(v ssa.Value, depth int) bool {
+		if depth > 12 {
+			return false
+		}
+		if seen[v] {
+			return true
+		}
+		switch y := v.(type) {
+		case *ssa.Phi:
+			seen[v] = true
+			for _, e := range y.Edges {
+				if !walk(e, depth+1) {
+					return false
+				}
+			}
+			return true
+		case *ssa.BinOp:
+			if y.Op == token.ADD || y.Op == token.SUB {
+				if c, isC := bconstInt(y.Y); isC {
+					if y.Op == token.SUB {
+						c = -c
+					}
+					// only steps applied to something that leads back to a phi of the cycle count
+					if inner, isPhi := y.X.(*ssa.Phi); isPhi || func() bool { _, b := y.X.(*ssa.BinOp); return b }() {
+						_ = inner
+						if c < 0 {
+							up = false
+						}
+						if c > 0 {
+							down = false
+						}
+						return walk(y.X, depth+1)
+					}
+				}
+			}
+		}
+		for _, l := range leaves {
+			if l == v {
+				return true
+			}
+		}
+		leaves = append(leaves, v)
+		return true
+	}
+	if !walk(x, 0) || len(leaves) != 1 || (!up && !down) {
+		return nil, false, false, false
+	}
+	// the leaf must not change while the loops run
+	if ins, isIns := leaves[0].(ssa.Instruction); isIns {
+		if ins.Block() == nil || !ins.Block().Dominates(x.Block()) || ins.Block() == x.Block() {
+			return nil, false, false, false
+		}
+		for v := range seen {
+			if ph, isPhi := v.(*ssa.Phi); isPhi && !ins.Block().Dominates(ph.Block()) {
+				return nil, false, false, false
+			}
+		}
+	}
+	return leaves[0], up, down, true
+}
+
+
+func isSlicesGrow(c *ssa.Function) bool {
+	if c == nil {
+		return false
+	}
+	o := c.Origin()
+	if o == nil {
+		o = c
+	}
+	return o.Pkg != nil && o.Pkg.Pkg.Path() == "slices" && o.Name() == "Grow"
+}
+
+
+// noteFieldLen records len >= n facts for loads of fields with a declared minimum length.
+func (p *bprover) noteFieldLen(v ssa.Value) {
+	var addr ssa.Value
+	switch x := v.(type) {
+	case *ssa.UnOp:
+		addr = x.X
+	case *memVal:
+		addr = x.addr
+	}
+	fa, ok := addr.(*ssa.FieldAddr)
+	if !ok {
+		return
+	}
+	if n, ok := fieldMinLen[fieldKey(fa)]; ok {
+		if p.minLen == nil {
+			p.minLen = map[ssa.Value]int64{}
+		}
+		p.minLen[v] = n
+	}
+}
+
+
+// phiSource: a phi-like value whose cycle of phis (the values that flow
+// into it and that it flows into) is fed from outside by one single value
+// equals that value: loops and joins that merely carry a value around.
+func phiSource(v ssa.Value) (ssa.Value, bool) {
+	if _, _, ok := phiLike(v); !ok {
+		return nil, false
+	}
+	reach := func(from ssa.Value) map[ssa.Value]bool {
+		seen := map[ssa.Value]bool{}
+		var walk func(x ssa.Value, depth int)
+		walk = func(x ssa.Value, depth int) {
+			if depth > 30 || seen[x] {
+				return
+			}
+			seen[x] = true
+			if _, edges, ok := phiLike(x); ok {
+				for _, e := range edges {
+					if e != nil {
+						walk(e, depth+1)
+					}
+				}
+			}
+		}
+		walk(from, 0)
+		return seen
+	}
+	fromV := reach(v)
+	web := map[ssa.Value]bool{v: true}
+	for x := range fromV {
+		if x == v {
+			continue
+		}
+		if _, _, ok := phiLike(x); ok && reach(x)[v] {
+			web[x] = true
+		}
+	}
+	var ext ssa.Value
+	for x := range web {
+		_, edges, _ := phiLike(x)
+		for _, e := range edges {
+			if e == nil {
+				return nil, false
+			}
+			if web[e] {
+				continue
+			}
+			if ext == nil {
+				ext = e
+			} else if ext != e {
+				return nil, false
+			}
+		}
+	}
+	if ext == nil {
+		return nil, false
+	}
+	return ext, true
+}
+
+// dominatesValue: block b dominates the block where the phi-like value v lives.
+func dominatesValue(b *ssa.BasicBlock, v ssa.Value) bool {
+	vb, _, ok := phiLike(v)
+	if !ok || vb == nil {
+		return false
+	}
+	return b == vb || b.Dominates(vb)
+}
+
+
+// instrBefore: a is executed before b on every path to b (same block and
+// earlier, or in a strictly dominating block).
+func instrBefore(a, b ssa.Instruction) bool {
+	if a.Block() == nil || b.Block() == nil {
+		return false
+	}
+	if a.Block() == b.Block() {
+		for _, in := range a.Block().Instrs {
+			if in == a {
+				return true
+			}
+			if in == b {
+				return false
+			}
+		}
+		return false
+	}
+	return a.Block().Dominates(b.Block())
+}
+
+
+// srcDominates: the value src is defined where it dominates the phi-like value v.
+func srcDominates(src, v ssa.Value) bool {
+	switch x := src.(type) {
+	case *memVal:
+		if x.blk == nil {
+			return true
+		}
+		return dominatesValue(x.blk, v)
+	case ssa.Instruction:
+		return x.Block() == nil || dominatesValue(x.Block(), v)
+	}
+	return true
 }
